@@ -75,7 +75,7 @@ class Node(object):
             for i in range(len(self.values)):
                 b = z3.Bool("%s=%d" % (self.name, i)) if not isinstance(self.name, tuple) else None
                 gs.append(b)
-                GUARD_REG[b.get_id()] = (self, i)
+                GUARD_REG[b.get_id()] = (self, i, b)
             self._guards = gs
             ALL_NODES[self.id] = self
         return self._guards
@@ -84,7 +84,7 @@ class Node(object):
         """base variables created from existing z3 Booleans"""
         self._guards = list(gs)
         for i, b in enumerate(gs):
-            GUARD_REG[b.get_id()] = (self, i)
+            GUARD_REG[b.get_id()] = (self, i, b)
         ALL_NODES[self.id] = self
 
     @property
@@ -195,7 +195,102 @@ def apply(f, *args, **opts):
         raise ApplyRaise(excs, ok)
     if len(vals) == 1:
         return vals[0]
+    if len(vals) == 2 and vals[0] is True and vals[1] is False:
+        vals = [False, True]
+        table = 1 - table
     return Node(vals, nodes, table)
+
+
+def normalize_bool(c):
+    """Boolean node with values exactly [False, True] (index = truth value)"""
+    if not isinstance(c, Node):
+        return bool(c)
+    if len(c.values) == 2 and c.values[0] is False and c.values[1] is True:
+        return c
+    tv = np.array([1 if v else 0 for v in c.values], dtype=np.int32)
+    if tv.all():
+        return True
+    if not tv.any():
+        return False
+    return Node([False, True], [c], tv)
+
+
+def ite(c, a, b):
+    """c ? a : b with a vectorised table (c a Boolean node with values [False, True] or a bool)"""
+    if not isinstance(c, Node):
+        return a if c else b
+    if not (len(c.values) == 2 and c.values[0] is False and c.values[1] is True):
+        c = normalize_bool(c)
+        if not isinstance(c, Node):
+            return a if c else b
+    if not isinstance(a, Node) and not isinstance(b, Node):
+        return apply(lambda cc: a if cc else b, c)
+    vals = []
+    index = {}
+
+    def idx_of(vs):
+        out = np.empty(len(vs), dtype=np.int32)
+        for i, v in enumerate(vs):
+            k = vkey(v)
+            j = index.get(k)
+            if j is None:
+                j = len(vals)
+                index[k] = j
+                vals.append(v)
+            out[i] = j
+        return out
+
+    ia = idx_of(values_of(a))
+    ib = idx_of(values_of(b))
+    parents = [c]
+    if isinstance(a, Node) and a is not c:
+        parents.append(a)
+    if isinstance(b, Node) and b is not c and b is not a:
+        parents.append(b)
+    if a is c or b is c or (a is b and isinstance(a, Node)):
+        return apply(lambda cc, aa, bb: aa if cc else bb, c, a, b)
+    shape = tuple(len(p.values) for p in parents)
+    if np.prod(shape) > MAX_TABLE:
+        raise TooBig("ite table")
+    table = np.empty(shape, dtype=np.int32)
+    # axis 0 = c; then a (if node), then b (if node)
+    sa = ia.reshape((-1,) + (1,) * (len(shape) - 2)) if isinstance(a, Node) else ia[0]
+    if isinstance(a, Node) and isinstance(b, Node):
+        table[1] = ia[:, None]
+        table[0] = ib[None, :]
+    elif isinstance(a, Node):
+        table[1] = ia
+        table[0] = ib[0]
+    else:
+        table[1] = ia[0]
+        table[0] = ib
+    if len(vals) == 1:
+        return vals[0]
+    return Node(vals, parents, table)
+
+
+def relation(a, b, pairs):
+    """Boolean node over (a, b) that is true exactly on the given (i, j) value-index pairs"""
+    na, nb = isinstance(a, Node), isinstance(b, Node)
+    if not na and not nb:
+        return bool(pairs)
+    shape = (len(values_of(a)), len(values_of(b)))
+    t = np.zeros(shape, dtype=np.int32)
+    for i, j in pairs:
+        t[i, j] = 1
+    if na and nb and a is not b:
+        tab, parents = t, [a, b]
+    elif na and nb:
+        tab, parents = np.diagonal(t).copy(), [a]
+    elif na:
+        tab, parents = t[:, 0].copy(), [a]
+    else:
+        tab, parents = t[0, :].copy(), [b]
+    if tab.all():
+        return True
+    if not tab.any():
+        return False
+    return Node([False, True], parents, tab)
 
 
 def ancestors(n, acc=None):
